@@ -194,3 +194,96 @@ Proof.
     + assert (0 < c * (emean - e)) by nra. nra.
   - split; intros H; nra.
 Qed.
+
+(* ------------------------------------------------------------------------- *)
+(* lifting to Model_core.derivs (any number of grains, every regime)          *)
+(* ------------------------------------------------------------------------- *)
+Definition skew_wrt (o Ad : arr R) : Prop :=
+  forall i j, lt3 i -> lt3 j -> sym_defect Ad o i j = 0.
+
+Lemma grains_length ph fb os (D L : RA) p n lam rs :
+  grains ph fb os D L p n lam = Ok rs -> length rs = length os.
+Proof.
+  revert rs; induction os as [|o os IH]; intros rs H; cbn [grains] in H.
+  - inversion H; reflexivity.
+  - destruct (k_get_rotation_and_strain ph fb o D L p n lam) as [r|]; [|discriminate].
+    destruct (grains ph fb os D L p n lam) as [rs'|]; [|discriminate].
+    inversion H; subst; cbn [length]; f_equal; apply IH; reflexivity.
+Qed.
+
+Lemma grains_skew ph fb os (D L : RA) p n lam rs :
+  grains ph fb os D L p n lam = Ok rs -> Forall2 skew_wrt os (map fst rs).
+Proof.
+  revert rs; induction os as [|o os IH]; intros rs H; cbn [grains] in H.
+  - inversion H; constructor.
+  - destruct (k_get_rotation_and_strain ph fb o D L p n lam) as [[Ad E]|] eqn:Hk; [|discriminate].
+    destruct (grains ph fb os D L p n lam) as [rs'|]; [|discriminate].
+    inversion H; subst; cbn [map fst]. constructor; [|apply IH; reflexivity].
+    intros i j Hi Hj. eapply rotation_and_strain_skew; eassumption.
+Qed.
+
+Lemma scale9_defect c o Ad i j : lt3 i -> lt3 j ->
+  sym_defect (@scale9 NumR c Ad) o i j = c * sym_defect Ad o i j.
+Proof.
+  three i; three j;
+  cbv [sym_defect scale9 m3 mk_arr nth Nat.add Nat.mul]; numR; ring.
+Qed.
+
+Lemma scale9_skew c o Ad : skew_wrt o Ad -> skew_wrt o (@scale9 NumR c Ad).
+Proof.
+  intros H i j Hi Hj. rewrite scale9_defect by assumption. rewrite (H i j Hi Hj). ring.
+Qed.
+
+Lemma zeros9_skew o : skew_wrt o (@zeros9 NumR).
+Proof. intros i j _ _. apply zeros_skew. Qed.
+
+Definition dislocation_regime (r : Z) : Prop := r = 4%Z \/ r = 6%Z.
+
+(* C03: every grain's orientation rate is its orientation composed with a skew spin *)
+Theorem derivs_skew regime ph fb os fs (D L S : RA) p n lam M phi Ads fds :
+  dislocation_regime regime ->
+  @derivs NumR regime ph fb os fs D L S p n lam M phi = Ok (Ads, fds) ->
+  Forall2 skew_wrt os Ads.
+Proof.
+  intros [Hr|Hr] H; subst regime; cbn [derivs Z.eqb Pos.eqb] in H;
+  destruct (grains ph fb os D L p n lam) as [rs|] eqn:Hg; try discriminate;
+  inversion H; subst; clear H.
+  - eapply grains_skew; eassumption.
+  - apply grains_skew in Hg. revert Hg. generalize os.
+    induction rs as [|r rs IH]; intros os' Hg; inversion Hg; subst; cbn [map]; constructor.
+    + apply scale9_skew; assumption.
+    + apply IH; assumption.
+Qed.
+
+Lemma rsum_zeros {A} (l : list A) : rsum (map (fun _ => 0) l) = 0.
+Proof. induction l; cbn; [reflexivity|]. unfold rsum in IHl. rewrite IHl; ring. Qed.
+
+(* C03: volume rates sum to zero (every accepted regime) *)
+Theorem derivs_sum_zero regime ph fb os fs (D L S : RA) p n lam M phi Ads fds :
+  length os = length fs -> rsum fs = 1 ->
+  @derivs NumR regime ph fb os fs D L S p n lam M phi = Ok (Ads, fds) ->
+  rsum fds = 0.
+Proof.
+  intros Hl Hs H. unfold derivs in H.
+  repeat match type of H with
+  | (if ?c then _ else _) = _ => destruct c
+  end; try discriminate;
+  try (inversion H; subst; apply (@rsum_zeros (arr R)));
+  destruct (grains ph fb os D L p n lam) as [rs|] eqn:Hg; try discriminate;
+  inversion H; subst; apply volume_rates_sum_zero; try assumption;
+  rewrite map_length; apply grains_length in Hg; change (T NumR) with R in *; lia.
+Qed.
+
+(* C03: frac part of derivs is frac_rates of the grain energies *)
+Lemma derivs_fracs regime ph fb os fs (D L S : RA) p n lam M phi Ads fds :
+  dislocation_regime regime ->
+  @derivs NumR regime ph fb os fs D L S p n lam M phi = Ok (Ads, fds) ->
+  exists es c, length es = length os /\ 0 < cfac c /\ fds = @frac_rates NumR c phi M fs es.
+Proof.
+  intros [Hr|Hr] H; subst regime; cbn [derivs Z.eqb Pos.eqb] in H;
+  destruct (grains ph fb os D L p n lam) as [rs|] eqn:Hg; try discriminate;
+  inversion H; subst; clear H; apply grains_length in Hg.
+  - exists (map snd rs), None. rewrite map_length. cbn [cfac]. repeat split; try assumption; lra.
+  - exists (map snd rs), (Some (@three_tenths NumR)). rewrite map_length.
+    repeat split; try assumption. cbv [cfac three_tenths]; numR. lra.
+Qed.
